@@ -8,7 +8,7 @@
 (* spec computes the represented integer from the layout and checks the    *)
 (* exact residue identity of every operation in BigNat arithmetic.         *)
 (***************************************************************************)
-EXTENDS Edwards, ZL, Recode, Json, TLC, IOUtils
+EXTENDS Edwards, ZL, Recode, FieldLimbsBig, Json, TLC, IOUtils
 
 Tr == ndJsonDeserialize(IOEnv.VERIF_TRACE)
 N  == Len(Tr)
@@ -41,7 +41,7 @@ RECURSIVE PowSq(_, _)
 PowSq(a, n) == IF n = 0 THEN ReduceP(a) ELSE PowSq(SqrP(a), n - 1)
 
 \* ---------------------------------------------------------------- field (C18)
-FieldChecks(e) ==
+FieldChecks0(e) ==
     LET ly == e.layout
         a  == Val(ly, e.a)
         b  == IF e.b = << >> THEN Zero ELSE Val(ly, e.b)
@@ -66,6 +66,15 @@ FieldChecks(e) ==
           [] f = "Contract"                      -> << <<"canonical: the unique value below p", ToBytes(ReduceP(a), 32), e.bytes>> >>
           [] f = "SwapConditional"               -> << <<"swap or no-op, limb for limb", IF e.flag = 1 THEN <<e.b, e.a>> ELSE <<e.a, e.b>>, <<e.out, e.out2>> >> >>
           [] OTHER -> << <<"unknown field op", "", f>> >>
+
+\* the limbs themselves, predicted by the limb-level transcription at the real sizes (a 4-tuple is a NOTE, not a verdict)
+LimbNote(e) ==
+    IF e.f \in FLKnown /\ e.out # << >>
+    THEN << <<"limbs differ from the limb-level transcription (FieldLimbsBig)",
+              FLPredict(e.layout, e.f, FLLimbs(e.a), IF e.b = << >> THEN << >> ELSE FLLimbs(e.b), IF "n" \in DOMAIN e THEN e.n ELSE 0),
+              e.out, "note">> >>
+    ELSE << >>
+FieldChecks(e) == FieldChecks0(e) \o LimbNote(e)
 
 \* ---------------------------------------------------------------- scalars (C19)
 W(ly, ls) == LimbBits(ly, 1) * (ls + 1)
@@ -154,8 +163,10 @@ Eval(i) ==
 
 Report ==
     /\ pc = "eval"
-    /\ LET bad == {k \in 1..Len(chk) : chk[k][2] # chk[k][3]}
-       IN  PrintT(<<"EV", idx, Tr[idx].id, IF bad = {} THEN "ok" ELSE "MISMATCH", {chk[k][1] : k \in bad}>>)
+    /\ LET bad   == {k \in 1..Len(chk) : Len(chk[k]) = 3 /\ chk[k][2] # chk[k][3]}
+           notes == {k \in 1..Len(chk) : Len(chk[k]) = 4 /\ chk[k][2] # chk[k][3]}
+       IN  /\ PrintT(<<"EV", idx, Tr[idx].id, IF bad = {} THEN "ok" ELSE "MISMATCH", {chk[k][1] : k \in bad}>>)
+           /\ IF notes = {} THEN TRUE ELSE PrintT(<<"NOTE", idx, Tr[idx].id, {chk[k][1] : k \in notes}>>)
     /\ pc' = "checked" /\ UNCHANGED <<blk, idx, chk>>
 
 TInit == pc = "root" /\ blk = 0 /\ idx = 0 /\ chk = << >>
